@@ -15,7 +15,7 @@ HOISTS = [
 UNIT = {
  'name': 'decrypt',
  'doc': 'Decoder::{key, decrypt} against ISO 32000 Algorithm 1 / 1.A; Decoder::{from_password, default} key-size selection and '
-        'login plumbing against Table 20/21, Algorithms 6, 7, 2.A (MD5, SHA-2, RC4, AES uninterpreted)',
+        'login plumbing against Table 20/21, Algorithms 6, 7, 2.A (MD5, SHA-2, AES uninterpreted; RC4 = spec fn and lemmas of units/rc4, no RC4 axiom)',
  'items': {
   'type ObjNr': {'kind': 'decl', 'file': O, 'header': r'^pub type ObjNr\b'},
   'type GenNr': {'kind': 'decl', 'file': O, 'header': r'^pub type GenNr\b'},
